@@ -183,7 +183,12 @@ void Gen::fill(char* s, size_t n) {
 				put(&c, n, o);
 				return;
 			}
-			case FieldKind::Enum: { uint64_t c = rng.below(6); put(&c, n, o); return; }
+			case FieldKind::Enum: {
+				// small values dominate, but sparse enums (e.g. hkConstraintType 0,1,2,6,7,8) need the upper ones as well
+				uint64_t c = rng.below(3) ? rng.below(4) : rng.below(10);
+				put(&c, n, o);
+				return;
+			}
 			case FieldKind::Int: {
 				uint64_t c;
 				if (auto sp = dynamic_cast<NiSkinPartition*>(obj)) {
